@@ -428,8 +428,23 @@ def onProtectedUplink (P : Prims) (cfg : Cfg) (s : St) (k : Nat) (u : UeSt) (ini
     if byteAt plain 0 != 0x7E || byteAt plain 1 % 16 != 0 then (s.setUe u).fail k "nas-parse" else
     if expectSmc then
       if ty != 0x5E then (s.setUe u).fail k "unexpected-nas" else
-      let s := if (parseNas Spec.Ts24501.securityModeComplete plain).isSome then s else s.fail k "nas-parse"
-      s.setUe { u with reg := .ctxSetup false false }
+      match parseNas Spec.Ts24501.securityModeComplete plain with
+      | none => (s.fail k "nas-parse").setUe { u with reg := .ctxSetup false false }
+      | some m =>
+        -- TS 24.501 4.4.6 / 8.2.26: the NAS message container (IEI 0x71) carries the COMPLETE Registration Request, which
+        -- the AMF uses from then on: it must parse as one, name the same subscriber and announce the selected algorithms
+        let s := match optIE m 0x71 with
+          | none => s
+          | some inner =>
+            match parseNas Spec.Ts24501.registrationRequest inner with
+            | none => s.fail k "smc-container-parse"
+            | some r =>
+              let s := if suciIs cfg u.j ((r.mand[4]?).getD []) then s else s.fail k "smc-container-suci"
+              match optIE r 0x2E with
+              | some cap => if Spec.Identity.eaSupported cap selectedEa && Spec.Identity.iaSupported cap selectedIa then s
+                            else s.fail k "smc-container-capability"
+              | none => s.fail k "smc-container-capability"
+        s.setUe { u with reg := .ctxSetup false false }
     else if ty == 0x5E then (s.setUe u).fail k "unexpected-nas"
     else if ty == 0x43 then
       let s := if (parseNas Spec.Ts24501.registrationComplete plain).isSome then s else s.fail k "nas-parse"
